@@ -8,7 +8,10 @@
 (*      one handle (cursor); rows of a frame may come in any order.        *)
 (*  (b) Gaussian blurring: full Cartesian grid of ng[k] equally spaced     *)
 (*      points spanning the box bounds OF THE FRAME (every frame has its   *)
-(*      own bounds and cell), enumerated by a loop whose step              *)
+(*      own bounds and its own cell; the two are independent attributes:   *)
+(*      the grid is a function of the bounds alone, the minimum image of   *)
+(*      the cell alone - FrameGrid, CellChange, BoundsChange),             *)
+(*      enumerated inside the frame loop by a loop whose step              *)
 (*      Visit writes grid point pt into flat slot Flat(ng, pt); value of a *)
 (*      slot = sum over particles within the cut-off (minimum image) of    *)
 (*      G(d) * property, G(d) = exp(-d^2 / 2 sigma^2) / sqrt(2 pi sigma^2).*)
